@@ -1,3 +1,4 @@
+import OpacusLean.Lemmas.PeekQueue
 import OpacusLean.Model.Noise
 import OpacusLean.Props.C05
 import Mathlib.Probability.Distributions.Gaussian.Real
@@ -98,5 +99,20 @@ theorem combine_secure (d0 d1 d2 d3 d4 : ℝ) : combine true [d0, d1, d2, d3, d4
   simp [combine]
 
 theorem combine_plain (d : ℝ) : combine false [d] = d := rfl
+
+/-! ## Hook-based per-layer optimizer: the peeked skip signal is the current batch's -/
+
+/-- **hook_noise_on_logical_batch_ends**: however far the splitting sampler runs ahead of the training loop (any
+interleaving of `signal_skip_step` pushes and physical batches in which every batch's own signal was pushed before it runs),
+the per-parameter hooks of `DistributedPerLayerOptimizer` draw noise on physical batch `i` iff the `i`-th pushed signal is
+`False` – exactly on the batches that end a logical batch, once each. -/
+theorem hook_noise_on_logical_batch_ends (ops : List Opacus.PeekQueue.Op) (h : Opacus.PeekQueue.ahead 0 ops = true) :
+    (Opacus.PeekQueue.run ops).noised = ((Opacus.PeekQueue.pushed ops).take (Opacus.PeekQueue.batches ops)).map (!·) := by
+  have := (Opacus.PeekQueue.run_from [] [] ops (by simpa using h)).1
+  simpa [Opacus.PeekQueue.run] using this
+
+/-- non-vacuity: two logical batches of 2 + 1 physical batches, the sampler two batches ahead -/
+example : Opacus.PeekQueue.ahead 0 [.push true, .push false, .batch, .push false, .batch, .batch] = true ∧
+    (Opacus.PeekQueue.run [.push true, .push false, .batch, .push false, .batch, .batch]).noised = [false, true, true] := by decide
 
 end Opacus.C04
